@@ -22,15 +22,37 @@ MAX_EXEC = {"quick": 12000, "thorough": 60000}
 MAX_SECONDS = {"quick": 500, "thorough": 1500}
 
 
-def cases(tier, seed, extra=()):
+def cases(tier, seed, extra=(), long=False):
     # feature-product instances first: they contain the largest choice trees (better pool utilisation)
     fam = list(families(tier, seed))
     for inst in feature_instances(tier, seed) + fam + list(extra):
         yield ("instance", {"inst": inst.as_json(), "tier": tier})
+    # long chains (10 - 40 units; light / heavy comonomers, end groups, two blocks): far outside the exhaustive bound, explored
+    # completely up to a deviation bound (all executions with at most 2 / 3 departures from the default answers)
+    for inst in (long_chain_instances(tier, seed) if long else []):
+        yield ("instance", {"inst": inst.as_json(), "tier": tier, "dev_bound": 2 if tier == "quick" else 3})
     # the same parsed object generating every execution (history between generations of one object)
     for inst in fam:
         if inst.family in ("end-initiated", "transitions", "branched", "handover", "block", "bond-order") or tier == "thorough":
             yield ("instance", {"inst": inst.as_json(), "tier": tier, "reuse": True})
+
+
+def long_chain_instances(tier, seed):
+    from ..instances import g0, mass, mol
+    from ..refsem import sto, tok
+
+    light, heavy = "[<]CC[>]", "[<]CC(Br)[>]"
+    out = []
+    ks = [12.5] + ([20.5, 40.5] if tier == "thorough" else [])
+    for k in ks:
+        t = round(k * mass(light), 3)
+        out.append(Instance(f"long|light-heavy|{k}", mol(tok("N"), sto("[>]", [light, heavy], [], "[<]", g0(t)), tok("F")), family="long-chain"))
+        out.append(Instance(f"long|heavy-light|{k}", mol(tok("N"), sto("[>]", [heavy, light], [], "[<]", g0(t)), tok("F")), family="long-chain"))
+    t = round(12.5 * mass(light), 3)
+    out.append(Instance("long|endgroups", mol(sto("[]", [light, heavy], ["[>]N", "[<]O"], "[]", g0(t))), family="long-chain"))
+    out.append(Instance("long|sym", mol(tok("N"), sto("[$]", ["[$]CC[$]", "[$]CC(Br)[$]"], [], "[$]", g0(t)), tok("F")), family="long-chain"))
+    out.append(Instance("long|two-blocks", mol(tok("[H]"), sto("[>]", [light, heavy], [], "[<]", g0(t)), sto("[>]", ["[<]CO[>]", "[<]CS[>]"], [], "[<]", g0(round(11.5 * mass("[<]CO[>]"), 3))), tok("[H]")), family="long-chain"))
+    return out
 
 
 def corpus_cases(tier, seed):
@@ -48,7 +70,11 @@ def corpus_cases(tier, seed):
 def evaluate(pid, want, data, well_posed=None):
     res = new_result()
     inst = Instance.from_json(data["inst"])
-    if "bound" in data:
+    if "dev_bound" in data:
+        # an instance far outside the exhaustive bound: complete up to a deviation bound, all per-execution oracles, no
+        # comparison of the outcome distribution
+        stats, viols, dist = run_instance(inst, max_exec=MAX_EXEC[data.get("tier", "quick")], bound=data["dev_bound"], want=tuple(w for w in want if w != "C08"), well_posed=well_posed, model=True, max_seconds=MAX_SECONDS[data.get("tier", "quick")])
+    elif "bound" in data:
         # deviation-bounded exploration of a full-size string: never exhaustive, no model comparison
         stats, viols, dist = run_instance(inst, max_exec=120 if data.get("tier") == "quick" else 2500, bound=data["bound"], want=tuple(w for w in want if w in ("C04", "C05")), well_posed=False, model=False, max_seconds=100 if data.get("tier") == "quick" else 900)
         stats["capped"] = False
@@ -67,6 +93,10 @@ def evaluate(pid, want, data, well_posed=None):
     res["nontrivial"] = (inst.name + ("|reused-object" if data.get("reuse") else "")) if stats["execs"] > 0 else None
     res["outcomes"] = [f"{inst.family}:{k[1]}" for k in dist]
     res["sample"] = {"instance": inst.text, "executions": stats["execs"], "choice_points": stats["points"], "distinct_outcomes": stats["outcomes"], "model_states": stats["model_states"]}
+    if "dev_bound" in data:
+        res["extra"] = {"long_chain_executions": stats["execs"], "long_chain_instances": 1}
+        res["nontrivial"] = inst.name + f"|deviation-bound={data['dev_bound']}"
+        return res
     if "bound" in data:
         res["extra"] = {"documented_string_executions": stats["execs"], "documented_strings": 1}
         res["nontrivial"] = inst.name + f"|deviation-bound={data['bound']}"
